@@ -5,26 +5,26 @@ import HLV.Props.HoldFamily
 namespace HLV
 
 -- @theorem C03_calls_start_and_end_empty_handed : on every execution (any answers, ≤ n faults) of every well-typed program, whenever an acquiring call starts or an API hands the key back, the thread holds no lock
-theorem C03_calls_start_and_end_empty_handed (n : Nat) (C : Ctx) (prog : List Stmt)
-    (hok : ProgOK C prog) (u : UserSt)
+theorem C03_calls_start_and_end_empty_handed (n : Nat) (ro : RankOpt) (C : Ctx) (prog : List Stmt)
+    (hok : ProgOK ro C prog) (u : UserSt)
     {tr₁ tr₂ : List (Op × Resp)} {k : Nat} {r : Resp} {out : Outcome Unit UserSt}
     (hp : Path (program C prog u) (tr₁ ++ (.mark k, r) :: tr₂) out)
-    (ha : Admissible (HoldSpec n) {} tr₁)
+    (ha : Admissible (HoldSpec n ro) {} tr₁)
     (hk : k = mkKeyBack ∨ k = mkBeginBlocking ∨ k = mkBeginTry) :
-    ∀ x m, (ghostAfter (HoldSpec n) {} tr₁).held x m = 0 :=
-  program_op_ok n C prog hok u hp ha hk
+    ∀ x m, (ghostAfter (HoldSpec n ro) {} tr₁).held x m = 0 :=
+  program_op_ok n ro C prog hok u hp ha hk
 
 -- @theorem C03_program_ends_holding_nothing : when a well-typed program has run to its end, the thread holds nothing and is inside no call
-theorem C03_program_ends_holding_nothing (n : Nat) (C : Ctx) (prog : List Stmt)
-    (hok : ProgOK C prog) (u u' : UserSt) {tr : List (Op × Resp)}
-    (hp : Path (program C prog u) tr (.ret u')) (ha : Admissible (HoldSpec n) {} tr) :
-    (ghostAfter (HoldSpec n) {} tr).held = Held.empty ∧ (ghostAfter (HoldSpec n) {} tr).depth = 0 :=
-  (wp_sound (HoldSpec n) (program_hold n C prog hok u) hp).2 ha
+theorem C03_program_ends_holding_nothing (n : Nat) (ro : RankOpt) (C : Ctx) (prog : List Stmt)
+    (hok : ProgOK ro C prog) (u u' : UserSt) {tr : List (Op × Resp)}
+    (hp : Path (program C prog u) tr (.ret u')) (ha : Admissible (HoldSpec n ro) {} tr) :
+    (ghostAfter (HoldSpec n ro) {} tr).held = Held.empty ∧ (ghostAfter (HoldSpec n ro) {} tr).depth = 0 :=
+  (wp_sound (HoldSpec n ro) (program_hold n ro C prog hok u) hp).2 ha
 
 -- @theorem C03_every_statement_restores_empty : each statement (session of any API flavour, key operation, Debug, poison query) taken from a state with nothing held ends with nothing held, for every answer sequence
-theorem C03_every_statement_restores_empty (n : Nat) (C : Ctx) (st : Stmt) (hok : StmtOK C st)
+theorem C03_every_statement_restores_empty (n : Nat) (ro : RankOpt) (C : Ctx) (st : Stmt) (hok : StmtOK ro C st)
     (u : UserSt) (g : HG) (hh : g.held = Held.empty) (hd : g.depth = 0) :
-    wp (HoldSpec n) (stmt C st u) (fun _ g' => g'.held = Held.empty ∧ g'.depth = 0)
+    wp (HoldSpec n ro) (stmt C st u) (fun _ g' => g'.held = Held.empty ∧ g'.depth = 0)
       (fun _ _ => False) g :=
   stmt_spec C st u g _ _ hok hh hd (fun _ _ a b => ⟨a, b⟩)
 
